@@ -26,10 +26,6 @@ import (
 )
 
 func TestRegression_OpenSnapshotVersionStaysActiveUnderConcurrentClose(t *testing.T) {
-	if ev.Known(sigStaleRelease) {
-		ev.KnownFinding("C02", "goroutine variant: the version of an open snapshot is dropped from the active versions by the stale Release of another reader ("+sigStaleRelease+")")
-		return
-	}
 	kvsim.Register()
 	dir, err := os.MkdirTemp("", "c02v-")
 	if err != nil {
@@ -47,9 +43,9 @@ func TestRegression_OpenSnapshotVersionStaysActiveUnderConcurrentClose(t *testin
 		t.Fatal(err)
 	}
 	fv := kv.VerifFamilyVersion(f).(version.FamilyVersion)
-	flushes := 300
+	flushes := 1500
 	if os.Getenv("VERIF_TIER") == "thorough" {
-		flushes = 1500
+		flushes = 8000
 	}
 	var failMu sync.Mutex
 	var failure string
